@@ -13,7 +13,7 @@ Definition wit_s : sexpr R := SMulV (SLeaf wit_f) [1].
 
 Lemma flag_complete_refuted_R :
   exists (s : sexpr R) (o : oexpr R),
-    sleaves_ok s /\ build s = Ok o /\ slin s = true /\ olin o = false.
+    sleaves_ok s /\ build variant_current s = Ok o /\ slin s = true /\ olin variant_current o = false.
 Proof.
   exists wit_s, (ORVec true (OLeaf wit_f) [1]).
   split; [|split; [|split]]; try reflexivity.
@@ -25,5 +25,6 @@ Qed.
    is the field, the overload builds OperatorVectorSum, whose __init__ rejects a field range:
    the expression is well-typed by the documentation but raises TypeError. *)
 Definition wit_ip : leaf R := LIP 0 [1].
-Lemma add_scalar_field_range_rejected_R : build (SAddC (SLeaf wit_ip) 1) = Err TypeErr.
+Lemma add_scalar_field_range_rejected_R :
+  build variant_current (SAddC (SLeaf wit_ip) 1) = Err TypeErr.
 Proof. reflexivity. Qed.
